@@ -160,6 +160,27 @@ impl Slot {
     }
 }
 
+#[cfg(gecs_verif)]
+impl SlotIndex {
+    /// Verification hook: the raw index bits, including the free bit.
+    pub(crate) fn verif_raw(&self) -> u32 {
+        self.0
+    }
+}
+
+#[cfg(gecs_verif)]
+impl Slot {
+    /// Verification hook: the raw (index, version) pair of this slot.
+    pub(crate) fn verif_raw(&self) -> (u32, u32) {
+        (self.index.verif_raw(), self.version.get().get())
+    }
+
+    /// Verification hook: overwrite this slot's version. Only for slots that were never used.
+    pub(crate) fn verif_set_version(&mut self, version: std::num::NonZeroU32) {
+        self.version = SlotVersion::new(version);
+    }
+}
+
 // Need to enforce this invariant here just in case.
 // If this isn't true, then we can't trust the FREE_LIST_END value.
 #[test]
